@@ -12,4 +12,4 @@ for p in "$@"; do
   echo "== $p rc=$rc"
   echo "$out" | grep -E "^FINDING|^VIOLATION|UNDECIDED|^property=" | cut -c1-400
 done
-git -C /repo checkout -- . ; git -C /repo reset -q; git -C /repo status --short | head -3
+git -C /repo reset -q; git -C /repo checkout -- . ; git -C /repo status --short | head -3
